@@ -441,6 +441,96 @@ pub fn run(rep: &mut Report, thorough: bool) {
             rep.stage(&stage, "5 text fields (HTTP target, header value, SSH software, SSH comment, SMB1 dialect) x 6 fill sequences (2/3/4-byte UTF-8, invalid bytes, ASCII) x 4 alignments x every length 1..300 x {UDP, TCP}", total, t0);
         }
     }
+    // round 21: 32-bit words.  Every 4-byte window (every byte offset, not only aligned ones) of
+    // requests that carry nested 32-bit length / count fields (ONC-RPC with AUTH_SYS credentials,
+    // SMB2 negotiate / session setup, SMB1 session setup, STUN with attributes) x 32-bit edge
+    // values (around 0, 2^16, 2^24, 2^31 and within 16 of 2^32) x both byte orders x {UDP, TCP},
+    // overflow-checked and release builds (length arithmetic done in u32 wraps near 2^32)
+    {
+        use crate::apprpc::{build_call_flavors, with_record_mark};
+        use crate::appsmb::{smb1_session_setup, smb2_negotiate, smb2_session_setup, Smb1Hdr, Smb2Hdr};
+        let mut cred = Vec::new();
+        cred.extend_from_slice(&0x1234u32.to_be_bytes());
+        cred.extend_from_slice(&4u32.to_be_bytes());
+        cred.extend_from_slice(b"host");
+        for w in [0u32, 0, 0] {
+            cred.extend_from_slice(&w.to_be_bytes());
+        }
+        let mut getport = build_call_flavors(0x5a112233, 100000, 2, 3, 1, &cred, 0, b"");
+        for w in [100003u32, 3, 6, 0] {
+            getport.extend_from_slice(&w.to_be_bytes());
+        }
+        let null_sys = build_call_flavors(0x5a112234, 100000, 4, 0, 1, &cred, 0, b"");
+        let dump_verf = build_call_flavors(0x5a112235, 100000, 3, 4, 1, &cred, 1, &cred);
+        let stun = crate::corpus::stun_magic(&[crate::corpus::stun_attr(0x0003, &[0, 0, 0, 2]), crate::corpus::stun_attr(0x8022, b"abcd")].concat(), &[7u8; 12]);
+        // (payload over UDP, payload over TCP)
+        let bases: Vec<(Vec<u8>, Vec<u8>)> = vec![
+            (getport.clone(), with_record_mark(&getport)),
+            (null_sys.clone(), with_record_mark(&null_sys)),
+            (dump_verf.clone(), with_record_mark(&dump_verf)),
+            (stun.clone(), stun.clone()),
+            { let m = smb2_negotiate(&Smb2Hdr::new(0), &[0x0202, 0x0311], &[3u8; 16]); (m.clone(), m) },
+            { let m = smb2_session_setup(&Smb2Hdr::new(1), b"NTLMSSP\0\x01\0\0\0"); (m.clone(), m) },
+            { let m = smb1_session_setup(&Smb1Hdr::new(0x73), b"NTLMSSP\0\x01\0\0\0"); (m.clone(), m) },
+        ];
+        let mut vals: Vec<u32> = Vec::new();
+        for c in [0u32, 0x1_0000, 0x100_0000, 0x8000_0000] {
+            for d in 0..=16u32 {
+                vals.push(c.wrapping_add(d));
+                vals.push(c.wrapping_sub(d));
+            }
+        }
+        vals.sort();
+        vals.dedup();
+        let mut plan: Vec<(usize, usize)> = Vec::new();
+        for (b, (u, _)) in bases.iter().enumerate() {
+            for off in 0..u.len().saturating_sub(3) {
+                plan.push((b, off));
+            }
+        }
+        let dims = [plan.len() as u64, vals.len() as u64, 2, 2];
+        let total = engine::product(&dims);
+        let lv = |l: Level| ext[0].clone().with_log(LoggerKind::Logfmt, l);
+        let f4 = flow4(40000, 80);
+        let ck = cookies.get(&key_of(&f4)).copied().unwrap_or(0).wrapping_add(1);
+        for cfg in [lv(Level::Trace).with_profile(Profile::Dev), lv(Level::Warn).with_profile(Profile::Release)] {
+            let t0 = std::time::Instant::now();
+            let stage = format!("word32-edges-{:?}-{:?}", cfg.level, cfg.profile).to_lowercase();
+            let opts = RunOpts::new(&stage).stateful().chunk(128).no_monitor();
+            let cfgc = cfg.clone();
+            let stagec = stage.clone();
+            engine::run(
+                &cfg,
+                total,
+                &opts,
+                |i| {
+                    let d = engine::unrank(i, &dims);
+                    let (b, off) = plan[d[0] as usize];
+                    let v = vals[d[1] as usize];
+                    let w = if d[2] == 0 { v.to_be_bytes() } else { v.to_le_bytes() };
+                    if d[3] == 0 {
+                        let mut m = bases[b].0.clone();
+                        m[off..off + 4].copy_from_slice(&w);
+                        vec![Cmd::Frame(f4.udp(&m))]
+                    } else {
+                        // the same window of the message (behind the record mark, if any)
+                        let mut m = bases[b].1.clone();
+                        let sh = m.len() - bases[b].0.len();
+                        m[sh + off..sh + off + 4].copy_from_slice(&w);
+                        vec![Cmd::Frame(f4.tcp(1000, ck, F_PSH | F_ACK, &m))]
+                    }
+                },
+                |it: &Item, sk: &mut Sink| {
+                    sk.count("frames", 1);
+                    if it.outs[1].panicked {
+                        sk.violation(Violation { prop: "C01".into(), key: format!("panic:{}", engine::panic_site(&it.outs[1].text)), what: format!("reply() panicked: {}", it.outs[1].text), cfg: cfgc.clone(), cmds: it.cmds.to_vec(), idx: it.idx, stage: stagec.clone() });
+                    }
+                },
+                &mut rep.sink,
+            );
+            rep.stage(&stage, "7 requests with nested 32-bit length / count fields (ONC-RPC with AUTH_SYS credentials and verifier, STUN with attributes, SMB2 negotiate / session setup, SMB1 session setup) x every 4-byte window at every byte offset x 32-bit edge values (within 16 of 0, 2^16, 2^24, 2^31, 2^32) x both byte orders x {UDP, TCP behind a valid cookie}", total, t0);
+        }
+    }
     // 4b'. sizes: every corpus payload grown (filler appended) to sizes around and far beyond a
     // 1500-byte MTU, as a datagram, as an echo body, and as a TCP segment behind a valid cookie
     {
